@@ -137,12 +137,17 @@ func cmdSweep(args []string) {
 	}
 	dischargeAll(jobs, *jobsN)
 	np := 0
+	nex := 0
 	for _, o := range all {
 		if o.Status == "proved" {
 			np++
 			if *verbose {
 				fmt.Printf("  ok   %-80s %s %dms\n", o.Name, o.Solver, o.TimeMS)
 			}
+			continue
+		}
+		if sp := e.Specs.Funcs[o.Func]; sp != nil && excepted(sp, o) {
+			nex++
 			continue
 		}
 		fmt.Printf("  %-8s %s  @%s\n", o.Status, o.Name, o.Pos)
@@ -153,7 +158,7 @@ func cmdSweep(args []string) {
 	for _, se := range e.specErrs {
 		fmt.Println("SPEC-ERROR", se)
 	}
-	fmt.Printf("functions=%d obligations=%d proved=%d wall=%.1fs\n", len(fns), len(all), np, time.Since(t0).Seconds())
+	fmt.Printf("functions=%d obligations=%d proved=%d excepted=%d wall=%.1fs\n", len(fns), len(all), np, nex, time.Since(t0).Seconds())
 }
 
 func indent(s, p string) string {
